@@ -343,6 +343,13 @@ def _generate(loader):
                             ref = g.transform_points(ref, axes=own_axes, to_grid=go_, to_axes=B_, decimals=None)
                             if not trlib.same_tensor(got.a, ref.a):
                                 raise TraceError(f"points({A_}->{B_}) is not to-own-cube o forward o from-own-cube")
+                            if f == "H":
+                                # points() is the base-class method: a NON-linear transform (forward = any map of the own cube)
+                                # goes through the very same re-expression
+                                tn = OpaqueAffine(g, st.Tensor(a.a[None]))
+                                if not trlib.same_tensor(tn.points(xin, grid=gin, axes=A_, to_grid=gout, to_axes=B_).a, ref.a) or \
+                                        not trlib.same_tensor(trf.PointSetTransformer(tn, grid=gin, axes=A_, to_grid=gout, to_axes=B_)(xin).a, ref.a):
+                                    raise TraceError(f"points({A_}->{B_}) of a non-linear transform is not to-own-cube o forward o from-own-cube")
                             pst = trf.PointSetTransformer(t, grid=gin, axes=A_, to_grid=gout, to_axes=B_)
                             if not trlib.same_tensor(pst(xin).a, got.a):
                                 raise TraceError(f"PointSetTransformer({A_}->{B_}) differs from SpatialTransform.points")
@@ -354,6 +361,7 @@ def _generate(loader):
 
     # ---------------------------------------------------------------- composites
     inplace = {}
+    flag_table = []
     for D in (2, 3):
         g = mk_grid(Grid, D, align=False)
         x = st.symvec("x", D)
@@ -455,10 +463,14 @@ def _generate(loader):
                     mem = [(RecLinear if kd == "L" else RecNonRigid)(g, st.Tensor(mat_input(f"m{i}_", D, "H").a[None])) for i, kd in enumerate(kinds)]
                     del flags[:]
                     cls_(g, *mem)(xg, grid=gflag)
-                    want = [("linear" if kd == "L" else "nonrigid", gflag and i == 0) for i, kd in enumerate(kinds)]
-                    if flags != want:
-                        raise TraceError(f"{cls_.__name__}.forward(grid={gflag}) of members {kinds} passes grid flags {flags}; only the first member "
-                                         f"may be told that the points are the undeformed lattice")
+                    if [k_ for k_, _ in flags] != ["linear" if kd == "L" else "nonrigid" for kd in kinds]:
+                        raise TraceError(f"{cls_.__name__}.forward does not visit its members once each in listed order: {flags}")
+                    # the observed flags go into the generated table; Coq proves that only the first member is told that the
+                    # points are the undeformed lattice (Proofs/C06Sequence.v: composite_flags_traced)
+                    if D == 2:
+                        flag_table.append((cls_ is comp.SequentialTransform, [kd == "L" for kd in kinds], gflag, [f_ for _, f_ in flags]))
+                    elif (cls_ is comp.SequentialTransform, [kd == "L" for kd in kinds], gflag, [f_ for _, f_ in flags]) not in flag_table:
+                        raise TraceError("grid flags handed to the members depend on the dimension")
         ys = [st.symvec(f"y{k}_", D) for k in range(3)]
         prev = None
         for k in (1, 2, 3):
@@ -471,6 +483,13 @@ def _generate(loader):
     for fa in FORMS:
         if len({inplace[(fa, fb, D)] for fb in FORMS for D in (2, 3)}) != 1:
             raise TraceError("in-place behaviour of MultiLevelTransform.tensor depends on more than the first member's form")
+    def cbool(b):
+        return "true" if b else "false"
+    out.append("(* grid flags received by the members of a composite whose forward() runs the generic loop:\n"
+               "   (is SequentialTransform, member kinds (true = linear), flag given to the composite, flags received) *)")
+    out.append("Definition gen_composite_flag_table : list (bool * (list bool * bool * list bool)) :=\n  [" + ";\n   ".join(
+        f"({cbool(sq)}, ([{'; '.join(cbool(k_) for k_ in kinds)}], {cbool(gf)}, [{'; '.join(cbool(f_) for f_ in seen)}]))"
+        for sq, kinds, gf, seen in flag_table) + "].\n")
     out.append("(* does MultiLevelTransform.tensor() write the sum into the first member's own tensor? *)")
     out.append("Definition gen_ml_overwrites_first (fa : form) : bool :=\n  match fa with\n" +
                "\n".join(f"  | {COQF[fa]} => {'true' if inplace[(fa, 'T', 2)][0] else 'false'}" for fa in FORMS) + "\n  end.\n")
@@ -563,6 +582,65 @@ def _generate(loader):
                "\n".join(warp_arms) + "\n  end.\n")
     out.append("End Gen.\n")
 
+    # ---------------------------------------------------------------- generic configurable transform (spatial/generic.py)
+    import sys as _sys
+    placeholders = ["sym.deepali.core.config", "sym.deepali.spatial.generic"]   # dataclasses looks the defining module up in sys.modules
+    for n_ in placeholders:
+        _sys.modules[n_] = types.ModuleType(n_)
+    try:
+        gen = L.load("deepali.spatial.generic")
+    finally:
+        for n_ in placeholders:
+            _sys.modules.pop(n_, None)
+    configs = [("Affine", "TRS"), ("Affine", "T o R o S"), ("Affine", "SRT"), ("Affine", "A"), ("Affine", "TKRS"), ("Affine", "TQ"), ("Affine", "T"),
+               ("Affine o SVF", "TRS"), ("SVF o Affine", "TR"), ("DDF", "T"), ("SVF", "RS"), ("Affine o DDF", "KS"), ("DDF o Affine", "A")]
+    gtable, gfresh = [], {2: [], 3: []}
+    for D in (2, 3):
+        for model, aff in configs:
+            if "Q" in aff and D == 2:
+                continue
+            g = mk_grid(Grid, D, align=True)
+            g._size = st.tensor([5.0, 4.0] if D == 2 else [5.0, 4.0, 3.0])
+            t = gen.GenericSpatialTransform(g, params=True, config=gen.TransformConfig(transform=model, affine_model=aff))
+            if not isinstance(t, comp.SequentialTransform):
+                raise TraceError("GenericSpatialTransform is not a SequentialTransform")
+            names = [nm for nm, _ in t.named_transforms()]
+            classes = [type(m).__name__ for m in t.transforms()]
+            row = (model.split(" o "), [c_ for c_ in aff.replace(" o ", "")], names, classes)
+            if D == 2:
+                gtable.append(row)
+            elif "Q" not in aff and row not in gtable:
+                raise TraceError("composition order of GenericSpatialTransform depends on the dimension")
+            elif "Q" in aff:
+                gtable.append(row)
+            if t.linear:
+                m = fold_t(st.Tensor(t.tensor().a[0]))
+                no_fn(m, f"GenericSpatialTransform({model}, {aff}) D={D}")
+                gfresh[D].append((form_of(m.shape, D), m))
+
+    def cstr(v):
+        return '"' + v + '"%string'
+
+    def clist(vs):
+        return "[" + "; ".join(cstr(v) for v in vs) + "]"
+    out.append("(* spatial/generic.py: names of the elementary affine members per letter (AFFINE_NAMES), their classes (AFFINE_TRANSFORMS),\n"
+               "   and for traced configurations (components of `transform`, letters of `affine_model`): member names and classes in the\n"
+               "   order the composite applies them *)")
+    out.append("Definition gen_generic_affine_names : list (string * string) := [" +
+               "; ".join(f"({cstr(k_)}, {cstr(v_)})" for k_, v_ in gen.AFFINE_NAMES.items()) + "].")
+    out.append("Definition gen_generic_affine_classes : list (string * string) := [" +
+               "; ".join(f"({cstr(k_)}, {cstr(v_.__name__)})" for k_, v_ in gen.AFFINE_TRANSFORMS.items()) + "].")
+    out.append("Definition gen_generic_nonrigid_classes : list (string * string) := [" +
+               "; ".join(f"({cstr(k_)}, {cstr(v_.__name__)})" for k_, v_ in gen.NONRIGID_TRANSFORMS.items()) + "].")
+    out.append("Definition gen_generic_table : list (list string * list string * list string * list string) :=\n  [" + ";\n   ".join(
+        f"({clist(c_)}, {clist(l_)}, {clist(n_)}, {clist(k_)})" for c_, l_, n_, k_ in gtable) + "].\n")
+    out += ["Section GenGeneric.", "Context {K : fld}."]
+    for D in (2, 3):
+        out.append(f"(* tensor() of freshly constructed linear GenericSpatialTransform configurations, D = {D} *)")
+        out.append(f"Definition gen_generic_fresh_{D} : list (form * list (list K)) :=\n  [" + ";\n   ".join(
+            f"({COQF[f_]}, {trlib.nested(m_.a)})" for f_, m_ in gfresh[D]) + "].\n")
+    out.append("End GenGeneric.\n")
+
     # ---------------------------------------------------------------- non-rigid classes: default parameters
     nr = L.load("deepali.spatial.nonrigid")
     bs = L.load("deepali.spatial.bspline")
@@ -596,15 +674,20 @@ def _generate(loader):
 
     def rec_reshape(data, shape, mode=None, align_corners=None, **kw):
         calls.append(("grid_reshape", tuple(int(v) for v in shape), align_corners))
-        if align_corners is None:
-            raise TraceError("grid_reshape called without an explicit align_corners flag on a dense-field path")
         return st.Tensor(np.array([E.var("r")], dtype=object).reshape((1,) * data.a.ndim)).expand(*(tuple(data.shape[:2]) + tuple(int(v) for v in shape)))
 
     def rec_sample(data, grid, mode=None, padding=None, align_corners=None, **kw):
         calls.append(("grid_sample", None, align_corners))
-        if align_corners is None:
-            raise TraceError("grid_sample called without an explicit align_corners flag on a dense-field path")
         return st.Tensor(np.array([E.var("s")], dtype=object).reshape((1,) * data.a.ndim)).expand(*(tuple(data.shape[:2]) + tuple(grid.shape[1:-1])))
+    dense_table = []
+
+    def entry(path, ac, kernel, shape):
+        """one traced call site: which kernel is reached, with which target shape, and the align_corners flag it is given
+        (None = not passed: the kernel's default would apply)"""
+        ks = [c_ for c_ in calls]
+        ok_kernel = len(ks) == (1 if kernel else 0) and (not kernel or (ks[0][0] == kernel and (shape is None or ks[0][1] == shape)))
+        flag = ks[0][2] if len(ks) == 1 else None
+        dense_table.append((path, ac, ok_kernel, flag if kernel else ac))
     saved = (Ufun.grid_reshape, flow.grid_reshape, flow.grid_sample)
     try:
         Ufun.grid_reshape, flow.grid_reshape, flow.grid_sample = rec_reshape, rec_reshape, rec_sample
@@ -620,32 +703,34 @@ def _generate(loader):
                         t = cls(g, stride=2, resize=resize)
                         if tuple(t.params.shape[2:]) != tuple(v // 2 for v in gshape):
                             raise TraceError(f"{name}(stride=2): parameter shape {tuple(t.params.shape)}")
+                        tag = f"{name}:D{D}:resize={resize}"
                         del calls[:]
                         u = t.evaluate()
-                        want = [("grid_reshape", gshape, ac)] if resize else []
-                        if calls != want:
-                            raise TraceError(f"{name}.evaluate(resize={resize}) on an align_corners={ac} grid calls {calls}, expected {want}")
+                        entry("evaluate:" + tag, ac, "grid_reshape" if resize else None, gshape)
                         if name != "DisplacementFieldTransform":
                             continue
                         t.register_buffer("u", u, persistent=False)     # what update() does for a displacement field
                         del calls[:]
                         t.disp()
-                        want = [] if resize else [("grid_reshape", gshape, ac)]
-                        if calls != want:
-                            raise TraceError(f"disp() of a {'resized' if resize else 'coarse'} buffer on an align_corners={ac} grid calls {calls}, expected {want}")
+                        entry("disp-own-grid:" + tag, ac, None if resize else "grid_reshape", gshape)
                         xp = st.Tensor(np.array([E.var(f"x{i}") for i in range(D)], dtype=object).reshape(1, 1, D))
                         del calls[:]
                         base.SpatialTransform.forward(t, xp)
-                        if calls != [("grid_sample", None, ac)]:
-                            raise TraceError(f"forward(points) on an align_corners={ac} grid calls {calls}")
+                        entry("forward-points:" + tag, ac, "grid_sample", None)
                         xl = st.Tensor(np.array([E.var(f"x{i}") for i in range(D)], dtype=object).reshape((1,) * (D + 1) + (D,)))
                         xl = xl.expand(*((1,) + (3,) * D + (D,)))
                         del calls[:]
                         base.SpatialTransform.forward(t, xl, grid=True)
-                        if calls != [("grid_reshape", (3,) * D, ac)]:
-                            raise TraceError(f"forward(lattice, grid=True) on an align_corners={ac} grid calls {calls}")
+                        entry("forward-lattice-grid-flag:" + tag, ac, "grid_reshape", (3,) * D)
     finally:
         Ufun.grid_reshape, flow.grid_reshape, flow.grid_sample = saved
+
+    def copt(v):
+        return "None" if v is None else f"(Some {cbool(bool(v))})"
+    out.append("(* dense-field paths: (call site, align_corners of the transform's grid, expected kernel reached with the expected target shape,\n"
+               "   align_corners flag handed to that kernel (None = left to the kernel's default)) *)")
+    out.append("Definition gen_dense_path_table : list (string * bool * bool * option bool) :=\n  [" + ";\n   ".join(
+        f'("{pth}"%string, {cbool(ac)}, {cbool(okk)}, {copt(fl)})' for pth, ac, okk, fl in dense_table) + "].\n")
     out.append("(* every non-rigid class resets its parameters (displacements / velocities / B-spline coefficients) to 0 *)")
     out.append(f"Definition gen_nonrigid_defaults_zero : bool := {'true' if all(zero_ok) else 'false'}.\n")
     return "\n".join(out)
